@@ -3,6 +3,7 @@
 mod est;
 mod fy;
 mod invhash;
+mod jsonp;
 mod mle;
 mod ord;
 mod pmh;
@@ -25,6 +26,7 @@ fn main() {
         "est-cases" => est::cases(rest),
         "pmh-cases" => pmh::cases(rest),
         "sk-cases" => sk::cases(rest),
+        "json-cases" => jsonp::cases(rest),
         "purity" => purity::run(rest),
         "ord-cases" => ord::cases(rest),
         "ord-props" => ord::props(rest),
